@@ -18,6 +18,23 @@ type TV struct {
 	T types.Type
 }
 
+// OldSl is a slice value produced by old(...): its contents are read from the heap of state H, not just its header.
+type OldSl struct {
+	Sl
+	H *State
+}
+
+// asSl views a value as a slice, returning the state its contents live in (nil: the evaluating state).
+func asSl(v Value) (Sl, *State, bool) {
+	switch x := v.(type) {
+	case Sl:
+		return x, nil, true
+	case OldSl:
+		return x.Sl, x.H, true
+	}
+	return Sl{}, nil, false
+}
+
 // Exec verifies one function against its contract.
 type Exec struct {
 	ctx           *Ctx
@@ -44,6 +61,9 @@ type Exec struct {
 	euclid        map[string]*euclidEntry
 	euclidOrder   []*euclidEntry
 	footprint     []fpItem
+	pure          *pureCtx
+	purePC        Term
+	fidx          map[string]Term
 	usedContracts map[string]*FnSpec
 	pending       []pendingPath
 	kf            []knownFinding
@@ -94,7 +114,7 @@ func newExec(ld *Loaded, db *SpecDB, fn *ssa.Function, spec *FnSpec, cf *Contrac
 	ex := &Exec{ctx: newCtx(), ld: ld, db: db, fn: fn, spec: spec, cf: cf, pkgPath: fn.Pkg.Pkg.Path(),
 		params: map[string]TV{}, loops: map[*ssa.BasicBlock]*loopInfo{}, callOrd: map[ssa.Instruction]int{},
 		siteOrd: map[ssa.Instruction]int{}, notes: map[string]bool{}, strIDs: map[string]int{}, maxPaths: 20000,
-		euclid: map[string]*euclidEntry{}, usedContracts: map[string]*FnSpec{}, whens: map[string][]Term{}}
+		euclid: map[string]*euclidEntry{}, usedContracts: map[string]*FnSpec{}, whens: map[string][]Term{}, fidx: map[string]Term{}}
 	return ex
 }
 
@@ -338,6 +358,10 @@ func (ex *Exec) panicExit(st *State, in ssa.Instruction, what string) {
 
 // safety emits an obligation that a runtime-panic condition cannot occur (or is allowed by the contract).
 func (ex *Exec) safety(st *State, in ssa.Instruction, kind string, ok Term) {
+	if ex.pure != nil {
+		ex.pure.safe = append(ex.pure.safe, tImp(ex.purePC, ok))
+		return
+	}
 	if ex.discover != nil {
 		st.assume(ok)
 		return
